@@ -125,7 +125,7 @@ class Gen:
         r = self.rng
         c = r.random()
         if c < 0.08:
-            return {"t": "str", "s": r.choice(["a", "hello", "x_1", "two words"])}
+            return {"t": "str", "s": r.choice(["a", "hello", "x_1", "two words", "\u00e9 \u65e5"])}
         if c < 0.14:
             return {"t": "bool", "b": r.random() < 0.5}
         if c < 0.24:
